@@ -71,6 +71,11 @@ check("C11", "exploration",
       "Two engines. (a) Seeded operation histories (set trap action default/ignore/command with and without override, enable/disable each group of internal dispositions, enter a subshell with each option combination, mark/take caught signals) x initial dispositions x nine signal classes incl. KILL/STOP and EXIT drive the real TrapSet against the real Concurrent<VirtualSystem>; after every operation the disposition and mask read back from the simulated process, the listing and the returned error must equal a reference merge written from the documentation (effective = max(internal, trap action); refused iff ignored on entry and not overridden; KILL/STOP never). (b) Whole scripts with USR1/USR2 traps while the simulator delivers signals to the shell at seeded scheduler steps, with preemption between any two kernel calls: stdout, every printed $? and the final status must equal the signal-free run; trap runs == deliveries (spaced) or 1..=deliveries (burst), never nested.",
       BASE_NOTE, "deterministic simulation: operation histories vs reference merge model + signal injection at seeded scheduler steps vs pending-flag model", "DESIGN.md section 4 C11")
 
+check("C19", "exploration",
+      "Differential check whose deciding step stays inside the simulator: generated programs (redirections, descriptor duplication/closing, cd, globbing incl. hidden files, pipelines, command substitution, subshells, & + wait, traps with self-signals, signals to children, umask and modes, symlinks, a named FIFO, error cases) are first run on the simulated OS under the FIFO schedule and seeded schedules with preemption; only programs whose stdout, status and file tree are the same under every schedule (confluent) are run - twice - on the real kernel through the same shell glue and probe built-ins on RealSystem in a scratch directory, and compared with the simulated outcome (stdout bytes, exit status, stderr emptiness, file tree with contents and permission bits). Divergences are minimised at once so that their key names the operation involved; four modelling limits of the simulated file system are listed as known findings.",
+      "The real execution is observed, not simulated: it is confined to programs the simulator has shown schedule-independent and repeated twice (non-reproducible programs are discarded and counted). Not covered: execve, SIGPIPE, terminals/sessions, wall-clock timing, permission-denied cases (root), pids, error-message wording.",
+      "deterministic simulation establishes confluence; differential comparison of confluent programs against the real kernel", "DESIGN.md section 4 C19")
+
 import os
 selected = os.environ.get("MANIFEST_ONLY")
 manifest = {
